@@ -90,6 +90,10 @@ func __calledPrefix(prefix string) bool { return false }
 // function under verification (verifier only).
 func __fresh[T any](s []T) bool { return true }
 
+// __freshPtr: the pointer is non-nil and the object it points to was
+// allocated by the function under verification (verifier only).
+func __freshPtr[T any](p *T) bool { return p != nil }
+
 // __ghost: value of a ghost event counter defined by ghost-inc clauses (verifier only).
 func __ghost(name string) int { return 0 }
 
